@@ -407,3 +407,21 @@ fault("C17.merge-first-only", "C17", G, "        self.possibilities.extend(other
 fault("C17.root-first-head", "C17", TR, "        results = [p for r in parser._accepted_heads for p in r.parents.values()]", "        results = [p for r in parser._accepted_heads[:1] for p in r.parents.values()]", "R17.forest-root")
 fault("C17.rehome", "C17", TR, "            result = results.pop()\n            self.result.merge(result)", "            result = results.pop()\n            for node in result.possibilities:\n                node.context = self.result\n            self.result.merge(result)", "R17.forest-root")
 benign("C17.b-fold-redundant", "C17", P, "            not self.consume_input or (self.consume_input and position == in_len)", "            not self.consume_input or position == in_len")
+
+# ---------------------------------------------------------------- C10
+C = "parglare/common.py"
+E = "parglare/exceptions.py"
+fault("C10.valueerror-in-next-token", "C10", P, "        if not tokens:\n            return None\n        elif len(tokens) == 1:", "        if tokens is None:\n            raise ValueError('no tokens')\n        if not tokens:\n            return None\n        elif len(tokens) == 1:", "R10.discipline")
+fault("C10.raise-in-actor", "C10", G, "        debug = self.debug\n        for action in head.state.actions.get(head.token_ahead.symbol, []):", "        debug = self.debug\n        if head.token_ahead is None:\n            raise RuntimeError('no lookahead')\n        for action in head.state.actions.get(head.token_ahead.symbol, []):", "R10.discipline")
+fault("C10.append-raw", "C10", P, "                self.errors.append(\n                    self._create_error(\n                        input_str,\n                        head,\n                        symbols_expected,\n                        tokens_ahead,\n                        symbols_before=[cur_state.symbol],\n                    )\n                )",
+      "                self.errors.append(Exception('syntax error'))", "R10.errors-are-syntax-errors")
+fault("C10.location-head-span", "C10", P, "            Location(context=ErrorContext(context)),\n            input,", "            Location(context=context),\n            input,", "R10.errors-are-syntax-errors")
+fault("C10.glr-setdefault", "C10", G, "                self._active_heads_per_symbol.setdefault(possible_lookahead, {})[\n                    h.state.state_id\n                ] = h", "                self._active_heads_per_symbol.setdefault(\n                    possible_lookahead, {h.state.state_id: h}\n                )", "R10.expected")
+fault("C10.tokens-ahead-le", "C10", P, "        if context.position < len(context.input_str):\n            for terminal in self.grammar.terminals.values():", "        if context.position <= len(context.input_str):\n            for terminal in self.grammar.terminals.values():", "R10.expected")
+fault("C10.lines-unguarded", "C10", E, "    lines = text.splitlines(keepends=True) or [\"\"]", "    lines = text.splitlines(keepends=True)", "R10.render")
+fault("C10.is-eof-bool", "C10", C, "        return self.input_str is not None and self.start_position == len(self.input_str)", "        return bool(self.input_str) and self.start_position == len(self.input_str)", "R10.eof")
+fault("C10.is-eof-gt", "C10", C, "self.start_position == len(self.input_str)", "self.start_position > len(self.input_str)", "R10.eof")
+fault("C10.eof-inverted", "C10", E, "        if not location.is_eof():\n            message = f\"unexpected {token_str} \"", "        if location.is_eof():\n            message = f\"unexpected {token_str} \"", "R10.eof")
+fault("C10.solutions-outside-debug", "C10", G, "            forest = Forest(self)\n            if self.debug:\n                a_print(f\"*** {forest.solutions} successful parse(s).\")", "            forest = Forest(self)\n            n_solutions = forest.solutions\n            if self.debug:\n                a_print(f\"*** {n_solutions} successful parse(s).\")", "R10.discipline")
+fault("C10.expected-all", "C10", G, "        self._expected = set(h.token_ahead.symbol for h, _ in self._for_shifter)", "        self._expected = set(h.token_ahead.symbol for h in self._last_shifted_heads if h.token_ahead)", "R10.expected")
+benign("C10.b-reorder", "C10", E, "        self.last_heads = last_heads\n        self.grammar = grammar\n", "        self.grammar = grammar\n        self.last_heads = last_heads\n")
